@@ -107,6 +107,7 @@ func init() {
 			{Rule: "NIL-3", Floors: map[string]int{"massive": 1, "iter": 2}},
 			{Rule: "NIL-4", Floors: map[string]int{"bce": 8, "assert": 5, "div": 2}},
 			{Rule: "EFF-7"},
+			{Rule: "PAIR-7"},
 			{Rule: "CONC-2"},
 			{Rule: "CONC-3", Filter: role("collector")},
 			{Rule: "ERR-3"},
@@ -271,6 +272,7 @@ func init() {
 		Uses: []Use{
 			{Rule: "GLOB-1", Floors: map[string]int{"global": 8, "summary": 2}},
 			{Rule: "GLOB-3", Floors: map[string]int{"accumulate": 8}},
+			{Rule: "PAIR-4", Filter: role("lazy"), Floors: map[string]int{"lazy": 2}},
 		},
 		Decides:    "no value derived from mutable package-level state (a variable assigned outside init, written through, or handed to a mutating method — counters, caches, pools, maps) reaches a branch condition, an output/filesystem call or an exported result; the per-node branch/path cache is cleared before it is rebuilt on every route, so repeating an operation repeats its result.",
 		NotDecided: "concurrent Add on the same tree from several goroutines (unsupported by design), external global configuration (color.NoColor), state kept in objects the caller passes in.",
@@ -300,6 +302,7 @@ func init() {
 			{Rule: "SIB-5", Filter: cfgIs("W")},
 			{Rule: "EFF-4", Filter: and(cfgIs("W"), role("validate-call"))},
 			{Rule: "NIL-1", Filter: cfgIs("W")},
+			{Rule: "PAIR-6", Filter: cfgIs("W")},
 		},
 		Decides:    "the tinywasm generator, grower and factories are line-for-line (canonical SSA) the default build's; shared files are compiled into both variants; the variant's baked-in row term composed with its concatenating printer equals the default row term; the dry-run report and summary have the same term (newline placement differs but composes equally) and counters are reset per root and incremented once per node by the shared predicate; JSON tags and copy order agree; the variant's own error, scanner, attach and nil disciplines hold.",
 		NotDecided: "equality on colour escape codes (the variant colours names before the branch is baked), TinyGo's runtime and standard library versus Go's, pairs outside the table; a structurally different but equivalent rewrite of one twin is reported as divergence by design.",
